@@ -337,7 +337,7 @@ PROPS = {
         assumptions=[],
     ),
     "C10": dict(
-        units=["mux", "noise", "qc", "replica", "conv", "leader", "canonical"],
+        units=["mux", "noise", "qc", "replica", "conv", "leader", "canonical", "handlers"],
         kani=["std_conv"],
         kani_quick=True,
         level="proof",
